@@ -2,11 +2,66 @@
 
 package gossip
 
-import "github.com/nuts-foundation/nuts-node/network/transport"
+import (
+	"sync"
 
-// VerifC07Tick runs, synchronously, exactly what the per-peer ticker goroutine started by PeerConnected runs when its
-// ticker fires: callSenders for that peer's queue with the registered senders. It returns false when the manager is not
-// the real one or the peer has no queue. Adds an export only (build tag verif); nothing of the package is rewritten.
+	"github.com/nuts-foundation/nuts-node/network/transport"
+)
+
+// The hook stands in for the per-peer ticker goroutine that PeerConnected starts: VerifC07Tick runs, synchronously, exactly
+// what that goroutine runs when its ticker fires (callSenders for the peer's queue with the registered senders) - but only
+// while that goroutine would still be running, i.e. for a queue that PeerConnected created and whose cancel function
+// (peerQueue.unregister) has not been called. To know that, VerifC07Arm - called by the harness right after every
+// PeerConnected - wraps the queue's cancelFunc so that the cancellation is recorded. A queue that is still in the
+// administration but whose ticker was cancelled is NOT ticked (production would not gossip from it either).
+// Adds exports only (build tag verif); nothing of the package is rewritten.
+
+type verifC07Ticker struct{ cancelled bool }
+
+var (
+	verifC07Mu       sync.Mutex
+	verifC07Registry = map[*manager]map[*peerQueue]*verifC07Ticker{}
+)
+
+// VerifC07Arm registers the queue the manager currently holds for the peer (if any, and if not registered before) as
+// having a live ticker. To be called after every Manager.PeerConnected. Returns false when there is no queue.
+func VerifC07Arm(m Manager, peer transport.Peer) bool {
+	mm, ok := m.(*manager)
+	if !ok {
+		return false
+	}
+	mm.mutex.Lock()
+	defer mm.mutex.Unlock()
+	pq, ok := mm.peers[peer.Key()]
+	if !ok {
+		return false
+	}
+	verifC07Mu.Lock()
+	defer verifC07Mu.Unlock()
+	reg := verifC07Registry[mm]
+	if reg == nil {
+		reg = map[*peerQueue]*verifC07Ticker{}
+		verifC07Registry[mm] = reg
+	}
+	if _, known := reg[pq]; known {
+		return true // PeerConnected ignored an already known peer: whatever state its ticker is in stays
+	}
+	st := &verifC07Ticker{}
+	reg[pq] = st
+	orig := pq.cancelFunc
+	pq.cancelFunc = func() {
+		verifC07Mu.Lock()
+		st.cancelled = true
+		verifC07Mu.Unlock()
+		if orig != nil {
+			orig()
+		}
+	}
+	return true
+}
+
+// VerifC07Tick fires the ticker of the peer's queue once. It returns false when the manager is not the real one, the peer
+// has no queue, the queue was never armed, or its ticker has been cancelled (nothing is sent then).
 func VerifC07Tick(m Manager, peer transport.Peer) bool {
 	mm, ok := m.(*manager)
 	if !ok {
@@ -19,8 +74,24 @@ func VerifC07Tick(m Manager, peer transport.Peer) bool {
 	if !ok {
 		return false
 	}
+	verifC07Mu.Lock()
+	st := verifC07Registry[mm][pq]
+	alive := st != nil && !st.cancelled
+	verifC07Mu.Unlock()
+	if !alive {
+		return false
+	}
 	callSenders(peer, pq, senders)
 	return true
+}
+
+// VerifC07Forget drops the hook's bookkeeping for a manager (end of a case).
+func VerifC07Forget(m Manager) {
+	if mm, ok := m.(*manager); ok {
+		verifC07Mu.Lock()
+		delete(verifC07Registry, mm)
+		verifC07Mu.Unlock()
+	}
 }
 
 // VerifC07Queued returns the number of references waiting in the gossip queue for the peer (-1: unknown peer).
